@@ -422,7 +422,26 @@ fn run_case(c: &Case) -> Outcome {
         let mine: Vec<&Rec> = recs.iter().filter(|r| r.tag == e.tag).collect();
         let what = if e.kind == InjectType::Probe { format!("probe {}", e.what) } else { format!("{}", e.kind) };
         if mine.is_empty() {
-            o.fail(format!("tagged-item no-record {}", what), format!("no record carries tag {:?} (item: {} {})", e.tag, e.kind, e.what));
+            // told apart: the item's code is reported, but under no / an empty tag (the listed finding for
+            // special-mode probes: resolution drops the tag) - or the item is not in the report at all
+            let reported_untagged = match e.marker {
+                Some(mk) => {
+                    let needle = format!("I32Const {{ value: {} }}", mk);
+                    recs.iter().any(|r| r.body.iter().any(|o| *o == needle))
+                }
+                None => true,
+            };
+            // a block alternate on the block removes the construct, and with it the special-mode probes
+            // on its opener and inside it (C21; fix e7f3f2d): nothing of them is left to report
+            let gone_with_block = c.items.iter().any(|i| matches!(i, Item::Probe { mode: PMode::BlockAlt, .. })) && ["SemanticAfterBlock", "SemanticAfterBr", "BlockEntry", "BlockExit"].contains(&e.what.as_str());
+            if !reported_untagged && gone_with_block {
+                continue;
+            }
+            if reported_untagged {
+                o.fail(format!("tagged-item no-record {}", what), format!("no record carries tag {:?} (item: {} {})", e.tag, e.kind, e.what));
+            } else {
+                o.fail(format!("tagged-item not-reported-at-all {}", what), format!("no record carries tag {:?} and no record of any tag contains the item's code (item: {} {})", e.tag, e.kind, e.what));
+            }
             continue;
         }
         // imported globals / memories are also globals / memories: a second record of that kind with the tag is fine
@@ -525,7 +544,7 @@ pub fn check(tier: Tier) -> i32 {
         frontier = next;
     }
     run.rule = format!(
-        "all histories of length <= {} over 58 operations: tagged additions of every kind (type, function/global/memory import, export, built function, global, memory, passive and active data), tagged probes of every mode (before - also on the function's final end -, after, alternate, semantic-after on a block and on a br, block-entry, block-exit, block-alt, function entry/exit) through the module iterator (append_to_tag) and the function modifier (append_tag_at), each with the tag attached after the code and with the tag attached between the mode call and the first injected instruction, plus untagged additions and probes, a tagged request for a type the base already has and an untagged re-request of a tagged type, on a base that already has an item of every kind. Three replays per history: one calls pull_side_effects(), one encode(), one pull_side_effects() and then encode() (whose bytes must equal the second's). Oracle: for every tag exactly one record of the item's kind carries it (special-mode probes: at least one), with the item's content; a probe's / function's record body contains the item's code and refers to function $l1, memory $m0 and global $g0 by their indices in the ENCODED module; no non-empty tag appears that was never attached; no record describes a pre-existing item. Records with empty tags are tolerated.",
+        "all histories of length <= {} over 58 operations: tagged additions of every kind (type, function/global/memory import, export, built function, global, memory, passive and active data), tagged probes of every mode (before - also on the function's final end -, after, alternate, semantic-after on a block and on a br, block-entry, block-exit, block-alt, function entry/exit) through the module iterator (append_to_tag) and the function modifier (append_tag_at), each with the tag attached after the code and with the tag attached between the mode call and the first injected instruction, plus untagged additions and probes, a tagged request for a type the base already has and an untagged re-request of a tagged type, on a base that already has an item of every kind. Three replays per history: one calls pull_side_effects(), one encode(), one pull_side_effects() and then encode() (whose bytes must equal the second's). Oracle: for every tag exactly one record of the item's kind carries it (special-mode probes: at least one), with the item's content; a probe's / function's record body contains the item's code and refers to function $l1, memory $m0 and global $g0 by their indices in the ENCODED module; no non-empty tag appears that was never attached; no record describes a pre-existing item. Records with empty tags are tolerated; an item whose tag is on no record is reported as `no-record` when its code appears in some record and as `not-reported-at-all` otherwise.",
         depth
     );
     run.run_cases("tagged histories", &cases, run_case);
